@@ -501,6 +501,9 @@ func memberPart(t *testing.T, in *memberInput, res *verifkit.Result) {
 			defer func() { <-sem; wg.Done() }()
 			rc := &in.Recipes[s]
 			st := &in.States[s]
+			fk := fmt.Sprintf("membersrc:%d", s)
+			flight.begin(fk)
+			defer flight.end(fk)
 			mn, err := build(rc)
 			if err != nil {
 				res.Note("state %d not reproduced: %v", s, err)
@@ -526,7 +529,10 @@ func memberPart(t *testing.T, in *memberInput, res *verifkit.Result) {
 						continue
 					}
 				}
+				fkey := fmt.Sprintf("member:%d", ti)
+				flight.begin(fkey)
 				acc, detail := node.run(&a, st)
+				flight.end(fkey)
 				rp.Real = fmt.Sprintf("accepted=%v %s", acc, detail)
 				cls := refusalClass(&a, st)
 				switch {
